@@ -11,7 +11,7 @@
 (*                                                                         *)
 (* Shapes (records; JSON objects coming from the harness have the same     *)
 (* fields):                                                                *)
-(*   schema  [k, name, lt, size, syms, c]   k = Avro type name, or "field" *)
+(*   schema  [k, name, ns, lt, size, syms, c]  k = Avro type name, or "field" *)
 (*           for a record field (name = field name, c = <<type>>)          *)
 (*   datum   [k, b, c]   k in null boolean long float double bytes string  *)
 (*           fixed enum array map entry union record                       *)
@@ -21,7 +21,7 @@ EXTENDS Integers, Sequences, FiniteSets, TLC, SequencesExt
 D(k, b, c) == [k |-> k, b |-> b, c |-> c]
 NilD == D("nil", <<>>, <<>>)
 
-S(k, name, lt, size, syms, c) == [k |-> k, name |-> name, lt |-> lt, size |-> size, syms |-> syms, c |-> c]
+S(k, name, lt, size, syms, c) == [k |-> k, name |-> name, ns |-> "", lt |-> lt, size |-> size, syms |-> syms, c |-> c]
 Prim(k)      == S(k, "", "", 0, <<>>, <<>>)
 FieldS(n, t) == S("field", n, "", 0, <<>>, <<t>>)
 RecordS(n, fs) == S("record", n, "", 0, <<>>, fs)
